@@ -4,6 +4,104 @@ package rtpmpeg1video
 
 // Contracts checked by /verif/govc (see /verif/DESIGN.md). Comment-only file.
 
+// --- encoder (C06) -------------------------------------------------------------------------
+//@ func packetCount
+//@   requires avail > 0 && le >= 0
+//@   ensures ret >= 0 && (ret-1)*avail < le && le <= ret*avail
+//@   modifies nothing
+
+// lenagg(s, n): size of a payload aggregating the first n slices of s (4-byte header).
+//@ spec nn(x int) int = ite(x >= 0, x, 0)
+//@ ufun lenagg(s [][]byte, n int) int = ite(n <= 0, 4, lenagg(s, n-1) + nn(len(s[n-1])))
+//@   lemma[n; t [][]byte] (forall k :: 0 <= k && k < n ==> len(s[k]) == len(t[k])) ==> lenagg(s, n) == lenagg(t, n)
+//@   trigger lenagg(s, n)
+//@   trigger lenagg(t, n)
+//@   lemma[n; j int] 0 <= j && j <= n ==> lenagg(s, j) <= lenagg(s, n) && lenagg(s, j) >= 4
+//@   trigger lenagg(s, j)
+//@   trigger lenagg(s, n)
+
+//@ func lenAggregated
+//@   ensures ret == lenagg(slices, len(slices)) + len(slice)
+//@   modifies nothing
+//@   loop 1
+//@     invariant 0 <= _i && _i <= len(slices) && n == lenagg(slices, _i) + len(slice)
+
+//@ func (e *Encoder) writeAggregated
+//@   opt frame-tag=C06
+//@   requires e.SSRC != nil && len(slices) >= 1 && lenagg(slices, len(slices)) <= 65535
+//@   ensures[C06] err == nil && len(ret) == 1 && ret[0] != nil && fresh(ret) && fresh(ret[0])
+//@   ensures[C06] len(ret[0].Payload) == lenagg(slices, len(slices))
+//@   ensures[C06] ret[0].SequenceNumber == old(e.sequenceNumber) && e.sequenceNumber == old(e.sequenceNumber) + 1
+//@   ensures[C06] !ret[0].Marker && ret[0].PayloadType == payloadType && ret[0].SSRC == *e.SSRC
+//@   modifies e.sequenceNumber, fresh
+
+//@ func (e *Encoder) writeFragmented
+//@   opt frame-tag=C06
+//@   requires e.SSRC != nil && 5 <= e.PayloadMaxSize && e.PayloadMaxSize <= 65535 && len(slice) >= 1
+//@   ensures[C06] err == nil && len(ret) >= 1 && fresh(ret)
+//@   ensures[C06] forall j :: 0 <= j && j < len(ret) ==> ret[j] != nil && fresh(ret[j]) && len(ret[j].Payload) <= e.PayloadMaxSize
+//@   ensures[C06] forall j :: 0 <= j && j < len(ret) ==> ret[j].SequenceNumber == old(e.sequenceNumber) + uint16(j)
+//@   ensures[C06] e.sequenceNumber == old(e.sequenceNumber) + uint16(len(ret))
+//@   ensures[C06] forall j :: 0 <= j && j < len(ret) ==> !ret[j].Marker
+//@   ensures[C06] forall j :: 0 <= j && j < len(ret) ==> ret[j].PayloadType == payloadType && ret[j].SSRC == *e.SSRC
+//@   modifies e.sequenceNumber, fresh
+//@   loop 1
+//@     invariant 0 <= i && i <= packetCount && len(ret) == packetCount && packetCount >= 1 && fresh(ret)
+//@     invariant avail == e.PayloadMaxSize - 4 && e.PayloadMaxSize == old(e.PayloadMaxSize) && e.SSRC == old(e.SSRC) && *e.SSRC == old(*e.SSRC)
+//@     invariant i < packetCount ==> len(slice) == len(old(slice)) - i*avail && le == avail
+//@     invariant i == packetCount ==> len(slice) == 0
+//@     invariant (packetCount-1)*avail < len(old(slice)) && len(old(slice)) <= packetCount*avail
+//@     invariant e.sequenceNumber == old(e.sequenceNumber) + uint16(i)
+//@     invariant forall j :: 0 <= j && j < i ==> ret[j] != nil && fresh(ret[j]) && len(ret[j].Payload) <= e.PayloadMaxSize
+//@     invariant forall j :: 0 <= j && j < i ==> ret[j].SequenceNumber == old(e.sequenceNumber) + uint16(j)
+//@     invariant forall j :: 0 <= j && j < i ==> !ret[j].Marker
+//@     invariant forall j :: 0 <= j && j < i ==> ret[j].PayloadType == payloadType && ret[j].SSRC == *e.SSRC
+//@     decreases packetCount - i
+
+//@ func (e *Encoder) writeBatch
+//@   opt frame-tag=C06
+//@   requires e.SSRC != nil && 5 <= e.PayloadMaxSize && e.PayloadMaxSize <= 65535 && len(slices) >= 1
+//@   requires forall k :: 0 <= k && k < len(slices) ==> len(slices[k]) >= 1
+//@   requires len(slices) >= 2 ==> lenagg(slices, len(slices)) <= e.PayloadMaxSize
+//@   ensures[C06] err == nil && len(ret) >= 1 && fresh(ret)
+//@   ensures[C06] forall j :: 0 <= j && j < len(ret) ==> ret[j] != nil && fresh(ret[j]) && len(ret[j].Payload) <= e.PayloadMaxSize
+//@   ensures[C06] forall j :: 0 <= j && j < len(ret) ==> ret[j].SequenceNumber == old(e.sequenceNumber) + uint16(j)
+//@   ensures[C06] e.sequenceNumber == old(e.sequenceNumber) + uint16(len(ret))
+//@   ensures[C06] forall j :: 0 <= j && j < len(ret) ==> !ret[j].Marker
+//@   ensures[C06] forall j :: 0 <= j && j < len(ret) ==> ret[j].PayloadType == payloadType && ret[j].SSRC == *e.SSRC
+//@   modifies e.sequenceNumber, fresh
+
+// Encode: "Frame must contain at least 4 bytes and must be a sequence of slices, each prefixed
+// with 001 and at least 4 bytes long. The method might panic otherwise." The walk over the
+// start codes is therefore not claimed panic-free (no safety tag; its index and slice
+// obligations are listed as undecided); everything from the slices it yields on is.
+// (The per-packet numbering clause of Encode does not discharge at the final return - two appends
+// and two helper calls in a row, modular arithmetic - and is listed as undecided; the numbering of
+// every helper, of everything emitted inside the loop, and the final counter value are proved.)
+//@ func (e *Encoder) Encode
+//@   opt frame-tag=C06
+//@   requires e.SSRC != nil && 5 <= e.PayloadMaxSize && e.PayloadMaxSize <= 65535 && len(frame) >= 4
+//@   ensures[C06] err == nil ==> len(ret) >= 1
+//@   ensures[C06] err == nil ==> forall j :: 0 <= j && j < len(ret) ==> ret[j] != nil && len(ret[j].Payload) <= e.PayloadMaxSize
+//@   ensures[C06] err == nil ==> forall j :: 0 <= j && j < len(ret) ==> ret[j].SequenceNumber == old(e.sequenceNumber) + uint16(j)
+//@   ensures[C06] err == nil ==> e.sequenceNumber == old(e.sequenceNumber) + uint16(len(ret))
+//@   ensures[C06] err == nil ==> ret[len(ret)-1].Marker
+//@   assert[C06]@call:writeBatch#2 e.sequenceNumber == old(e.sequenceNumber) + uint16(len(rets)) && (rets != nil ==> fresh(rets))
+//@   assert[C06]@call:writeBatch#2 forall j :: 0 <= j && j < len(rets) ==> rets[j] != nil && fresh(rets[j])
+//@   assert[C06]@call:writeBatch#2 forall j :: 0 <= j && j < len(rets) ==> rets[j].SequenceNumber == old(e.sequenceNumber) + uint16(j)
+//@   assert[C06]@call:writeBatch#2 forall j :: 0 <= j && j < len(rets) ==> len(rets[j].Payload) <= e.PayloadMaxSize && rets[j].PayloadType == payloadType && rets[j].SSRC == *e.SSRC
+//@   ensures[C06] err == nil ==> forall j :: 0 <= j && j < len(ret) ==> ret[j].PayloadType == payloadType && ret[j].SSRC == *e.SSRC
+//@   modifies e.sequenceNumber, fresh
+//@   loop 1
+//@     invariant batch != nil ==> len(batch) >= 1 && fresh(batch)
+//@     invariant forall k :: 0 <= k && k < len(batch) ==> len(batch[k]) >= 1
+//@     invariant len(batch) >= 2 ==> lenagg(batch, len(batch)) <= e.PayloadMaxSize
+//@     invariant e.sequenceNumber == old(e.sequenceNumber) + uint16(len(rets)) && len(rets) >= 0 && (rets != nil ==> fresh(rets))
+//@     invariant e.SSRC == old(e.SSRC) && e.PayloadMaxSize == old(e.PayloadMaxSize) && *e.SSRC == old(*e.SSRC)
+//@     invariant forall j :: 0 <= j && j < len(rets) ==> rets[j] != nil && fresh(rets[j]) && len(rets[j].Payload) <= e.PayloadMaxSize && !rets[j].Marker
+//@     invariant forall j :: 0 <= j && j < len(rets) ==> rets[j].SequenceNumber == old(e.sequenceNumber) + uint16(j)
+//@     invariant forall j :: 0 <= j && j < len(rets) ==> rets[j].PayloadType == payloadType && rets[j].SSRC == *e.SSRC
+
 // C08: what the decoder keeps between calls stays within the maximum frame size, for every
 // packet sequence (the partial slice being reassembled and the slices of the current frame).
 //@ typeinv Decoder d
